@@ -57,8 +57,28 @@ class _LazyPool:
         return self.vals[i]
 
 
+def _unpickle(req):
+    """a value that survived a 'process restart' as bytes: load and observe it in a process that
+    has none of the sender's caches or zone objects."""
+    import pickle as _p
+
+    from .obs import observe
+    from .world import get_world
+
+    get_world().reset(req.get("world", {}))
+    out = []
+    for data in req["unpickle"]:
+        try:
+            out.append(observe(_p.loads(data)))
+        except Exception as e:  # noqa: BLE001
+            out.append(["EXC", type(e).__name__, str(e)[:200]])
+    return out
+
+
 def _evaluate(req):
     """runs in a fresh fork of the pristine process."""
+    if "unpickle" in req:
+        return _unpickle(req)
     from .engine import apply_assignment
     from .obs import observe
     from .ops import Env, Skip, execute
@@ -144,6 +164,13 @@ class ColdServer:
         slim = {k: sc[k] for k in ("world", "pool") if k in sc}
         _send(self.req_w, {"sc": slim, "ops": ops_with_asg})
         return _recv(self.res_r)
+
+    def unpickle(self, world_cfg, blobs):
+        _send(self.req_w, {"unpickle": list(blobs), "world": world_cfg})
+        res = _recv(self.res_r)
+        if res is None or res[0] != "ok":
+            raise RuntimeError("cold-process unpickle failed: %r" % (res,))
+        return res[1]
 
     def stop(self):
         if self.pid:
